@@ -109,6 +109,10 @@ def enum_queries(seed):
             run(f"{op}*/{g}-1.5", lambda p, g=g, vmatch=vmatch: G(p.package, g) and vmatch(p, "1.5"))
             run(f"{op}a*/{g}-2", lambda p, g=g, vmatch=vmatch: G(p.category, "a*") and G(p.package, g) and vmatch(p, "2"))
         run(f"{op}ab-2", lambda p, vmatch=vmatch: p.package == "ab" and vmatch(p, "2"))
+        # ... with a slot and / or a repository on top of the operator and the glob
+        run(f"{op}*/a*-1.5:ab", lambda p, vmatch=vmatch: G(p.package, "a*") and vmatch(p, "1.5") and p.slot == "ab")
+        run(f"{op}*/*-1::other", lambda p, vmatch=vmatch: vmatch(p, "1") and p.repo.repo_id == "other")
+        run(f"{op}a*/*b-2:a+b/1.5::other", lambda p, vmatch=vmatch: G(p.category, "a*") and G(p.package, "*b") and vmatch(p, "2") and p.slot == "a+b" and p.subslot == "1.5" and p.repo.repo_id == "other")
     from pkgcore.ebuild.atom import atom
     for s in ("a/ab", ">=a/ab-2", "a/ab:aab", "dev-a/a:ab/a.b", "a/gtk+", "=a.b/ab-1", "a/ab::other"):
         a = atom(s)
